@@ -806,11 +806,11 @@ func dynamicFmtString(m dsl.Matcher) {
 
 	m.Match(`fmt.Errorf($f($*args))`).
 		Where(m.File().Imports(`errors`)).
-		Suggest("errors.New($f($*args))").
-		Report(`use errors.New($f($*args)) or fmt.Errorf("%s", $f($*args)) instead`)
+		Suggest("errors.New($f($args))").
+		Report(`use errors.New($f($args)) or fmt.Errorf("%s", $f($args)) instead`)
 
 	m.Match(`fmt.Errorf($f($*args))`).
-		Report(`use errors.New($f($*args)) or fmt.Errorf("%s", $f($*args)) instead`)
+		Report(`use errors.New($f($args)) or fmt.Errorf("%s", $f($args)) instead`)
 }
 
 //doc:summary Detects strings.Compare usage
